@@ -33,10 +33,21 @@ WRITE = {"view.update": ("framework/population/manager.py", "view.update"),
          "register_simulants": ("framework/randomness/manager.py", "self.register_simulants")}
 SUB = {"subview.get": None, "subview.update": None}   # handles returned by PopulationView.subview (no table entry)
 SERVICES = {**REG, **READ, **WRITE}
+# further kinds of handle for the same services (each must obey the same rule)
+VARIANTS = ["view.get@query", "view.get@all", "view.update@query", "view.update@all", "pipeline@rate", "pipeline@get_value",
+            "sample_from_distribution", "get_draw@crn", "filter_for_probability@crn", "filter_for_rate@crn", "choice@crn",
+            "sample_from_distribution@crn", "table@multi", "table@categorical", "table@interpolated"]
+
+
+def base(service: str) -> str:
+    return service.split("@")[0]
 
 
 def rule(service: str, state: str) -> bool:
     """the property's own statement: is the service available in this state?"""
+    service = base(service)
+    if service == "sample_from_distribution":
+        service = "get_draw"      # a stream draw; constrained through get_draw
     if service in REG:
         return state == "setup"
     if service in READ or service == "subview.get":
@@ -97,8 +108,18 @@ def _run_matrix(case):
             h["view_q"] = b.population.get_view(["a", "tracked"], "a >= 0")
             h["sub"] = h["view"].subview(["a"])
             h["stream"] = b.randomness.get_stream("s")
+            h["stream_crn"] = b.randomness.get_stream("s_crn", initializes_crn_attributes=True)
             h["pipe"] = b.value.register_value_producer("v", source=lambda idx: pd.Series(1.0, index=idx))
+            h["pipe_rate"] = b.value.register_rate_producer("vr", source=lambda idx: pd.Series(0.5, index=idx))
+            h["pipe_got"] = b.value.get_value("v")
+            h["view_all"] = b.population.get_view([])
             h["table"] = b.lookup.build_table(3.0)
+            h["table_multi"] = b.lookup.build_table((1.0, 2.0), value_columns=["p", "q"])
+            h["table_cat"] = b.lookup.build_table(
+                pd.DataFrame({"a": [0, 1, 2], "value": [1.0, 2.0, 3.0]}), key_columns=["a"], value_columns=["value"])
+            h["table_interp"] = b.lookup.build_table(
+                pd.DataFrame({"k_start": [0.0, 5.0], "k_end": [5.0, 5000.0], "value": [1.0, 2.0]}),
+                parameter_columns=["k"], value_columns=["value"])
             h["state"] = b.lifecycle.current_state()
             if self.early:
                 self._noise(b, "post")
@@ -135,16 +156,31 @@ def _run_matrix(case):
                 "get_simulant_creator": lambda: b.population.get_simulant_creator(),
                 "get_stream": lambda: b.randomness.get_stream(f"s{n}"),
                 "build_table": lambda: b.lookup.build_table(1.0),
-                "view.get": lambda: h["view" if n % 2 else "view_q"].get(idx),
+                "view.get": lambda: h["view"].get(idx),
+                "view.get@query": lambda: h["view_q"].get(idx),
+                "view.get@all": lambda: h["view_all"].get(idx),
                 "view.update": lambda: h["view"].update(pd.Series(1, index=idx, name="a")),
+                "view.update@query": lambda: h["view_q"].update(pd.Series(1, index=idx, name="a")),
+                "view.update@all": lambda: h["view_all"].update(pd.Series(1, index=idx, name="a")),
                 "subview.get": lambda: h["sub"].get(idx),
                 "subview.update": lambda: h["sub"].update(pd.Series(1, index=idx, name="a")),
                 "pipeline": lambda: h["pipe"](idx),
+                "pipeline@rate": lambda: h["pipe_rate"](idx),
+                "pipeline@get_value": lambda: h["pipe_got"](idx),
                 "get_draw": lambda: h["stream"].get_draw(idx),
                 "filter_for_probability": lambda: h["stream"].filter_for_probability(idx, 0.5),
                 "filter_for_rate": lambda: h["stream"].filter_for_rate(idx, 0.5),
                 "choice": lambda: h["stream"].choice(idx, [1, 2]),
+                "sample_from_distribution": lambda: h["stream"].sample_from_distribution(idx, ppf=lambda x: x),
+                "get_draw@crn": lambda: h["stream_crn"].get_draw(idx),
+                "filter_for_probability@crn": lambda: h["stream_crn"].filter_for_probability(idx, 0.5),
+                "filter_for_rate@crn": lambda: h["stream_crn"].filter_for_rate(idx, 0.5),
+                "choice@crn": lambda: h["stream_crn"].choice(idx, [1, 2]),
+                "sample_from_distribution@crn": lambda: h["stream_crn"].sample_from_distribution(idx, ppf=lambda x: x),
                 "table": lambda: h["table"](idx),
+                "table@multi": lambda: h["table_multi"](idx),
+                "table@categorical": lambda: h["table_cat"](idx),
+                "table@interpolated": lambda: h["table_interp"](idx),
                 "register_simulants": lambda: b.randomness.register_simulants(
                     pd.DataFrame({"k": [float(1000 + n)]}, index=[1000 + n])),
             }
@@ -221,8 +257,10 @@ class C07(Prop):
     technique = "Lean 4 proof (decide over the constraint table regenerated from every add_constraint call site) + exhaustive dynamic service x state matrix on real simulations"
     n_quick = 16
     n_thorough = 120
-    rule = ("each case is a whole simulation in which probe components issue all 18 service calls in all 9 component-visible "
-            "lifecycle states (162 cells, enumerated completely); cases vary who obtains the handles, when during setup, "
+    rule = ("each case is a whole simulation in which probe components issue all 33 service calls (every kind of handle: plain / "
+            "queried / whole-table views, sub-views, pipelines from register_value_producer / register_rate_producer / get_value, "
+            "ordinary and CRN-initialising streams incl. sample_from_distribution, scalar / multi-value / categorical / interpolated "
+            "lookup tables) in all 9 component-visible lifecycle states (297 cells, enumerated completely); cases vary who obtains the handles, when during setup, "
             "component order, CRN on/off, population size; non-trivial = the matrix has both admitted and refused cells")
 
     def boundary(self):
@@ -242,8 +280,9 @@ class C07(Prop):
     def model_lines(self, case, obs):
         L = []
         for svc, st, _ in obs["cells"]:
-            if svc in SERVICES:
-                f, m = SERVICES[svc]
+            b = "get_draw" if base(svc) == "sample_from_distribution" else base(svc)
+            if b in SERVICES:
+                f, m = SERVICES[b]
                 L.append(f"con {f} {m} {st}")
             else:
                 L.append("con - subview " + st)
@@ -255,7 +294,7 @@ class C07(Prop):
             if r == "unavailable":
                 continue
             got = r.split(":")[0]
-            if svc in SUB:
+            if base(svc) in SUB:
                 continue   # no table entry: handled by the oracle (F10)
             if rep != got:
                 dis.append(f"{svc} in {st}: implementation {r}, model {rep}")
@@ -267,7 +306,7 @@ class C07(Prop):
             fails.append({"sig": "simulation-crashed", "msg": obs["error"]})
         seen = {(s, st) for s, st, _ in obs["cells"]}
         # a caller placed before the holder has no handles yet in `setup`; every other cell must be present
-        for svc in list(SERVICES) + list(SUB):
+        for svc in list(SERVICES) + list(SUB) + VARIANTS:
             for st in STATES:
                 if (svc, st) not in seen:
                     fails.append({"sig": "matrix-incomplete", "msg": f"cell {svc} x {st} was never exercised"})
@@ -277,7 +316,7 @@ class C07(Prop):
             admitted = r.split(":")[0] == "admitted"
             want = rule(svc, st)
             if admitted != want:
-                if svc in SUB:
+                if base(svc) in SUB:
                     sig = "subview-unconstrained"
                 else:
                     sig = f"{svc}:{'admitted' if admitted else 'refused'}-in-{st}"
